@@ -386,11 +386,12 @@ class ComposedNode(ConfigNode):
         if self._delete is not None and self._allow_new is not None and self._safe is not None:
             return
 
+        implicit_delete = self._default_delete or self._implicit_delete # same as in _get_child_kwargs
         for child in self._children.values():
             fix = False
             if self._delete is None:
-                if child._implicit_delete != self._implicit_delete:
-                    child._implicit_delete = self._implicit_delete
+                if child._implicit_delete != implicit_delete:
+                    child._implicit_delete = implicit_delete
                     fix = True
             if self._allow_new is None:
                 if child._implicit_allow_new != self._implicit_allow_new:
